@@ -26,7 +26,9 @@ InRange(c) ==
   ELSE /\ 0 <= c.rid /\ c.rid < c.nl          \* right id: first index
        /\ 0 <= c.lid /\ c.lid < c.nr          \* left id: second index
        /\ Fits16(c.cost)
-       /\ (c.pos = "known" \/ c.upos = "allow")
+       \* the part of speech exists (all six components equal those of a POS of the dictionary), or it is a well-formed
+       \* six-component POS that does not exist and user-defined POS are allowed; a list of another arity never names a POS
+       /\ (c.pos = "known" \/ (c.pos = "unknown" /\ c.upos = "allow"))
 
 NoCfg == [kind |-> "none"]
 
